@@ -70,9 +70,34 @@ func diffWordsToRunes(doc *indexedDocument, start, end int) []rune {
 	runes := make([]rune, 0, end-start)
 
 	for _, t := range doc.Tokens[start:end] {
-		runes = append(runes, rune(t.ID))
+		runes = append(runes, tokenRune(t.ID))
 	}
 	return runes
+}
+
+// The diff library turns the runes it is given into strings and back. A rune
+// in the UTF-16 surrogate block does not survive that (every one of them
+// becomes U+FFFD), so token identifiers from that block onwards are shifted
+// past it: distinct words stay distinct runes for dictionaries of more than
+// 0xD800 words.
+const (
+	surrogateMin  = 0xD800
+	surrogateSize = 0x0800
+)
+
+func tokenRune(id tokenID) rune {
+	r := rune(id)
+	if r >= surrogateMin {
+		r += surrogateSize
+	}
+	return r
+}
+
+func runeToken(r rune) tokenID {
+	if r >= surrogateMin+surrogateSize {
+		r -= surrogateSize
+	}
+	return tokenID(r)
 }
 
 // diffRunesToWords rehydrates the text in a diff from a string of word hashes to real words of text.
@@ -83,7 +108,7 @@ func diffRunesToWords(diffs []diffmatchpatch.Diff, dict *dictionary) []diffmatch
 		var sb strings.Builder
 
 		for i, r := range chars {
-			sb.WriteString(dict.getWord(tokenID(r)))
+			sb.WriteString(dict.getWord(runeToken(r)))
 			if (i + 1) < len(chars) {
 				sb.WriteByte(' ')
 			}
